@@ -22,5 +22,17 @@ print(re.match(r'C\d+',c).group(0))")
   rm -f /verif/replays/*.json
   echo "$id $prop ${res:-NO-RESULT}" | tee -a $out.new
 done
-mv $out.new $out
+# merge with the previous table (a partial sweep only replaces its own rows)
+python3 - "$out" "$out.new" <<'PY'
+import sys, os
+old, new = sys.argv[1], sys.argv[2]
+rows = {}
+for f in (old, new):
+    if os.path.exists(f):
+        for l in open(f):
+            if l.strip():
+                rows[l.split()[0]] = l.rstrip("\n")
+open(old, "w").write("\n".join(rows[k] for k in sorted(rows)) + "\n")
+os.remove(new)
+PY
 git -C /verif checkout -- evidence 2>/dev/null
